@@ -1,9 +1,14 @@
 use crate::report::{Ctx, Report, Spec};
 pub mod c18;
+pub mod selftest;
+pub mod wire;
 
 pub fn dispatch(ctx: &Ctx) -> Option<(Spec, Report)> {
     Some(match ctx.id.as_str() {
+        "C01" => wire::run(ctx, 1),
+        "C02" => wire::run(ctx, 2),
         "C18" => c18::run(ctx),
+        "SELFTEST" => selftest::run(ctx),
         _ => return None,
     })
 }
